@@ -3,6 +3,7 @@ package types
 import (
 	"encoding/json"
 	"fmt"
+	"math"
 	"strconv"
 	"time"
 	"unicode"
@@ -145,7 +146,12 @@ func ParseDatetime(s string) (Datetime, error) {
 	}
 
 	if len(s) == 0 {
-		return Datetime{time.Date(year, time.Month(month), int(day), 0, 0, 0, 0, time.UTC).UnixMilli()}, nil
+		t := time.Date(year, time.Month(month), int(day), 0, 0, 0, 0, time.UTC)
+		// UnixMilli() has undefined behavior outside of the 64-bit millisecond range
+		if t.Before(time.UnixMilli(math.MinInt64)) || t.After(time.UnixMilli(math.MaxInt64)) {
+			return Datetime{}, fmt.Errorf("%w: timestamp out of range", errDatetime)
+		}
+		return Datetime{t.UnixMilli()}, nil
 	}
 
 	if s, err = expectChar(s, 'T'); err != nil {
